@@ -48,6 +48,19 @@ theorem challenge_self (E : HashEnv) (alg : String) (p : Bytes) (salt : Option B
       · cases h
       · simp at h; obtain ⟨h1, _⟩ := h; subst h1; simp [challenge]
 
+/-- **The empty secret is a secret like any other** (the edge of round 12: a challenge that refuses an empty plaintext up front,
+    a route that skips falsy values): the digest created for `""` is the hash of the salt alone, challenging it with `""` succeeds,
+    and a non-empty secret fails unless it collides with the salt alone. -/
+theorem empty_secret (E : HashEnv) (alg : String) (r : Bytes) (rest : List Bytes) :
+    create E alg [] none (r :: rest) = .ok (⟨r, E.H alg (r ++ []), alg⟩, rest) ∧
+    challenge E ⟨r, E.H alg (r ++ []), alg⟩ [] = true ∧
+    ∀ q, E.H alg (r ++ q) ≠ E.H alg (r ++ []) → challenge E ⟨r, E.H alg (r ++ []), alg⟩ q = false := by
+  refine ⟨digest_create E alg [] r rest, ?_, ?_⟩
+  · simp [challenge]
+  · intro q hq
+    simp only [challenge, beq_eq_false_iff_ne, ne_eq]
+    exact hq
+
 /-- the cryptographic assumption: no collision between these two salted inputs -/
 def CollisionFree (E : HashEnv) (alg : String) (salt p q : Bytes) : Prop :=
   E.H alg (salt ++ p) = E.H alg (salt ++ q) → p = q
